@@ -633,10 +633,12 @@ fn map_to_subscription_resource(
     info: &SubscriptionInfo,
 ) -> Subscription {
     // The topic is stored as a weak reference on the subscription.
-    // If it's no longer alive, then the topic was deleted.
+    // If it's no longer alive, then the topic was deleted. A deleted topic is kept
+    // alive by the requests still using it, hence the additional check.
     let topic_name = subscription
         .topic
         .upgrade()
+        .filter(|t| !t.is_deleted())
         .map(|t| t.name.to_string())
         .unwrap_or_else(|| "_deleted_topic_".to_string());
 
